@@ -1,3 +1,4 @@
+import TypVerif.Gen.SlicesShapes
 import TypVerif.Gen.SortedShapes
 /-
 C07, tie 4B — GOLDEN FUNCTION SHAPES (written by tools/mkshapes.py; do not edit by hand).  For every function of the source files this property's model mirrors,
@@ -24,5 +25,11 @@ theorem gen_shapes_sorted :
        ("Sorted.Contains", ["return s.Index(value) != -1", "call s.Index"]),
        ("Sorted.Index", ["call s.search", "if index < 0 || index >= s.Len() || s.slice[index] != value", "call s.Len", "return -1", "return index"]),
        ("Sorted.search", ["if s.less == nil", "call panic", "return sort.Search(len(s.slice), (func(i int) bool literal))", "call sort.Search", "call len", "return !s.less(s.slice[i], value)", "call s.less"])] := rfl
+
+/-- slices/slices.go, Insert and Remove - DEPENDENCIES of Sorted.Add / Remove / RemoveAt: 2 function(s) -/
+theorem gen_shapes_dep_insert_remove :
+    Gen.SlicesShapes.funcs.filter (fun f => (["Insert", "Remove"]).contains f.1) =
+      [("Insert", ["store *slice", "call append", "call copy", "store (*slice)[index]"]),
+       ("Remove", ["call copy", "store *slice", "call len"])] := rfl
 
 end C07
